@@ -1149,3 +1149,11 @@ def h_stale_view(cfg):
         elif prop == 'C15' and raised is not None:
             d = snap_diff(mid, post)
             check(d is None, 'C15 rejected call changed state', detail=_gen(d) + ' [earlier view] ' + sig)
+        elif prop == 'C16' and raised is None:
+            # a call through an earlier view has the same documented effect as through a fresh one
+            exp = copy_snap(mid)
+            r = op2.spec(exp)
+            if r is not None:
+                wild, extra = r
+                d = snap_diff(exp, post, wild=wild, link_sets=True)
+                check(d is None, 'C16 effect differs from the documented one', detail=_gen(d) + ' [earlier view] ' + sig)
